@@ -21,10 +21,10 @@ def bounds(tier):
 
 
 def mk(variants, started=None, ended=None, edstart='present', pre_op=False, T=60, tag='', dmax=100000, resend=None,
-       blank_id=None, example=None, unique=True):
+       blank_id=None, example=None, unique=True, meta_last=False, restart=None):
     N = len(variants)
     P = {'N': N, 'variants': list(variants), 'started': started, 'ended': ended, 'edstart': edstart,
-         'pre_op': pre_op, 'resend': resend, 'blank_id': blank_id}
+         'pre_op': pre_op, 'resend': resend, 'blank_id': blank_id, 'meta_last': meta_last, 'restart': restart}
     sym = [('s%d' % i, 'str') for i in range(N)]
     strs = [n for n, _ in sym]
     # story IDs need not be unique (roStoryAppend does not de-duplicate): in the 'dup-ids' cells the solver may
@@ -55,6 +55,10 @@ def mk(variants, started=None, ended=None, edstart='present', pre_op=False, T=60
         cid += '/blank-storyID-%d' % blank_id
     if not unique:
         cid += '/dup-ids'
+    if meta_last:
+        cid += '/story-metadata-after-items'
+    if restart is not None:
+        cid += '/then-new-roEdStart'
     # concrete anchors use FRACTIONAL durations (the symbolic run uses exact integers, stub S3): the real float()
     # parsing of "12.5"-style texts is exercised here
     ex = example
@@ -107,6 +111,17 @@ def cells(tier):
     out.append(mk(['SD', 'TT+MT'], unique=False, T=T))
     out.append(mk(['SD', 'MT', 'TT'], unique=False, T=T, dmax=10000))
     out.append(mk(['SD', 'SD'], unique=False, edstart='absent', started=[1, None], T=T))
+    # story metadata after an item that carries its own payload; roEdStart after the stories; a new roEdStart
+    # supplied by roMetadataReplace after the stories were read
+    for started, ended in ((None, None), ([1, None], None), (None, [None, 2]), ([None, 1], [2, None])):
+        out.append(mk(['SD', 'TT+MT'], started=started, ended=ended, meta_last=True, T=T))
+    out.append(mk(['SD', 'MT', 'TT'], meta_last=True, T=T, dmax=10000))
+    for v in (['SD'], ['SD', 'TT+MT'], ['none', 'SD']):
+        out.append(mk(v, edstart='after', T=T))
+    out.append(mk(['SD', 'TT'], edstart='after', started=[None, 1], T=T))
+    out.append(mk(['SD', 'TT+MT'], restart=2, T=T))
+    out.append(mk(['SD', 'MT'], restart=2, edstart='absent', T=T))
+    out.append(mk(['SD', 'SD'], restart=2, started=[1, None], ended=[None, 2], T=T))
     # after a reordering merge the relations hold again
     out.append(mk(['SD', 'TT+MT', 'SD+TT+MT'], pre_op=True, T=T, dmax=100000 if tier == 'thorough' else 10000))
     out.append(mk(['SD', 'MT'], pre_op=True, started=[1, None], T=T))
